@@ -154,4 +154,15 @@ TEXT = {
         "level_note": COMMON_NOTE + "Partial: pipeline-level clauses by execution.",
         "technique": "Lean 4 proof (case analysis of link resolution) + differential correspondence with executable predicates",
     },
+    "C18": {
+        "level_text": "Theorem C18_refines: for every node (length >= K >= 1) and every finite sequence of next()/nth(n) calls - any n, on both sides of "
+                      "the short-skip threshold (extracted from graph.rs) and of the remaining count - the model of NodeKmerIter (after the repair of "
+                      "D3) answers exactly like a cursor into the list of the node's n-K+1 k-mers; proved by a simulation invariant (cursor "
+                      "position = kmer_id, cached k-mer = window at the cursor, extend_right slides the window). C18_len_upfront: a fresh "
+                      "iterator reports the exact count; C18_end_is_sticky: after the end every call answers end. The defect D3 (nth past the "
+                      "end: panic / foreign k-mers / endless stream) was found by this check and repaired in /repo.",
+        "design_ref": "DESIGN.md section 6, C18",
+        "level_note": COMMON_NOTE + "The all-nodes/MPHF clause rests on C01 and is executed only.",
+        "technique": "Lean 4 proof (simulation of the iterator state machine by a list cursor, induction over call sequences) + differential correspondence",
+    },
 }
